@@ -211,6 +211,19 @@ func handlePanic(t *T, recovered any) {
 		return
 	}
 
+	// the panic value belongs to the scenario: when its own methods (Error, Is) panic while it is
+	// classified and reported - a typed nil error, say - the iteration has failed all the same and
+	// that second panic must not escape either
+	defer func() {
+		if r := recover(); r != nil {
+			t.logger.Error("recovered panic in scenario, reporting its value panicked",
+				log.IterationAttr(t.Iteration),
+				log.ErrorStringAttr(fmt.Sprint(r)),
+			)
+			t.Fail()
+		}
+	}()
+
 	err, isError := recovered.(error)
 	switch {
 	case isError && errors.Is(err, errFailNow):
